@@ -370,7 +370,7 @@ def _generic(args, cfg, prop, tier, t0, known, open_f, quarantine, run_dir, scra
     if final:
         for (dst, res) in final:
             print("VIOLATION property=%s replay=%s" % (prop, dst))
-            print("  %s: %s" % (res["kind"], res.get("detail", "")[:400]))
+            print(("  %s: %s" % (res["kind"], res.get("detail", "")[:400])).encode("ascii", "backslashreplace").decode())
         return 1
     if broken:
         for b in broken:
